@@ -89,3 +89,63 @@ func H_C12_q() { c := vCase(); hC12(1+c%2, 2, 2, 1) }
 // thorough: case = prefix (3) x layout (2) x first writer op (6)
 func H_C12_t() { c := vCase(); hC12div = 6; hC12(c%3, 2, 2, (c/3)%2) }
 func H_C12_t3() { c := vCase(); hC12(1+c%2, 3, 2, 1) }
+
+// H_C12_recovered: Backup of a database that was opened through recovery after
+// a history in which compaction freed a segment id that a rollover re-used
+// (physical id order != sequence order), with writes of two sizes after the
+// recovery: the copy must hold exactly the contents at the (quiescent) backup.
+func H_C12_recovered() {
+	n := 2
+	big, small := 40, 2
+	recBig := 10 + 8 + big
+	dir := "c12r"
+	mk := func() *Options { return smallOpts(fs.Mem, 2, recBig) }
+	db, err := Open(dir, mk())
+	vAssert(err == nil, "C12r.open")
+	if err != nil {
+		return
+	}
+	r := newRef(n, 8)
+	put := func(d *DB, k, vlen int, tag string) {
+		v := vBytes("val", vlen)
+		refApply(r, 0, k, v)
+		vAssert(d.Put(r.keys[k], v) == nil, tag)
+	}
+	put(db, 0, big, "C12r.p1")
+	put(db, 0, big, "C12r.p2")
+	put(db, 1, big, "C12r.p3")
+	_, err = db.Compact()
+	vAssert(err == nil, "C12r.compact")
+	put(db, 1, small, "C12r.p4")
+	put(db, 0, big, "C12r.p5")
+	fs.VerifDropHandles() // crash
+	db2, err := Open(dir, mk())
+	vAssert(err == nil, "C12r.recovering-open")
+	if err != nil {
+		return
+	}
+	for step := 0; step < 2; step++ {
+		k := vChoice("k", n)
+		if vChoice("del", 3) == 0 {
+			refApply(r, 1, k, nil)
+			vAssert(db2.Delete(r.keys[k]) == nil, "C12r.delete")
+		} else {
+			vl := small
+			if vChoice("vlen", 2) == 1 {
+				vl = big
+			}
+			put(db2, k, vl, "C12r.put")
+		}
+	}
+	checkReads(db2, r, "C12r.source")
+	vAssert(db2.Backup("c12rbk") == nil, "C12r.backup")
+	bk, err := Open("c12rbk", mk())
+	vAssert(err == nil, "C12r.copy-opens")
+	if err != nil {
+		return
+	}
+	checkReads(bk, r, "C12r.copy")
+	checkItems(bk, r, "C12r.copy")
+	checkReads(db2, r, "C12r.source-unaffected")
+	vCover("C12r.done")
+}
